@@ -1,6 +1,11 @@
 package fasthttp
 
-import "net"
+import (
+	"net"
+	"net/http"
+	"net/netip"
+	"time"
+)
 
 // C31 — IPv4 codec.
 
@@ -81,4 +86,100 @@ func vhC31Octet() {
 	}
 	vAssert("octet-accept-iff-spec", (err == nil) == ok)
 	vAssert("octet-value", err != nil || int(got) == val)
+}
+
+// ---- HTTP dates --------------------------------------------------------
+
+// c31DateGroups: byte ranges of "Mon, 02 Jan 2006 15:04:05 GMT" that are made
+// symbolic one at a time (the rest stays a valid date).
+var c31DateGroups = [...][2]int{
+	{0, 3}, {3, 5}, {5, 7}, {7, 8}, {8, 11}, {11, 12}, {14, 16}, {16, 17}, {17, 19}, {19, 20}, {20, 22}, {22, 23}, {23, 25}, {25, 26}, {26, 29},
+}
+
+// vhC31HTTPDateFastPath: whenever the fast RFC 1123 parser accepts a 29-byte
+// input, time.Parse(http.TimeFormat) (the standard library's own code,
+// interpreted) accepts it too and yields the same instant.
+func vhC31HTTPDateFastPath() {
+	b := []byte("Mon, 02 Jan 2006 15:04:05 GMT")
+	g := c31DateGroups[vChoose("group", len(c31DateGroups))]
+	hole := vBytes("hole", g[1]-g[0])
+	copy(b[g[0]:g[1]], hole)
+	fast, ok := parseRFC1123DateGMT(b)
+	if !ok {
+		return
+	}
+	std, err := time.Parse(http.TimeFormat, string(b))
+	vAssert("fast-path-accepts-only-what-time-parse-accepts", err == nil)
+	if err == nil {
+		vAssert("fast-path-returns-the-same-instant", fast.Unix() == std.Unix() && fast.Nanosecond() == std.Nanosecond())
+	}
+}
+
+var c31Times = [...]time.Time{
+	time.Date(1, 1, 1, 0, 0, 0, 0, time.UTC),
+	time.Date(1970, 1, 1, 0, 0, 0, 999, time.UTC),
+	time.Date(2000, 2, 29, 23, 59, 59, 500_000_000, time.UTC),
+	time.Date(2023, 12, 31, 23, 59, 60, 0, time.UTC),
+	time.Date(2024, 2, 29, 12, 0, 1, 1, time.FixedZone("x", 3600)),
+	time.Date(9999, 12, 31, 23, 59, 59, 999_999_999, time.UTC),
+	time.Date(2038, 1, 19, 3, 14, 8, 0, time.UTC),
+}
+
+// vhC31HTTPDateRoundTrip: ParseHTTPDate(AppendHTTPDate(t)) is t truncated to
+// the second, on a table of boundary instants (formatting a symbolic instant
+// needs 64-bit division by calendar constants, which no back end decides).
+func vhC31HTTPDateRoundTrip() {
+	t := c31Times[vChoose("time", len(c31Times))]
+	s := AppendHTTPDate(nil, t)
+	back, err := ParseHTTPDate(s)
+	vAssert("round-trip", err == nil && back.Equal(t.Truncate(time.Second)))
+	vAssert("29-bytes-ending-in-GMT", len(s) == 29 && string(s[26:]) == "GMT")
+}
+
+// ---- bracketed IPv6 literals vs net/netip --------------------------------
+
+var c31V6Templates = [...]string{
+	"::", "::1", "1::", "1:2:3:4:5:6:7:8", "1:2:3::8", "::ffff:1.2.3.4", "::1.2.3.4", "1:2:3:4:5:6:1.2.3.4", "1::1.2.3.4", "fe80::1%25e",
+}
+
+// vhC31IPv6Literal: "[" + address + "]" where the address is a template with
+// a window of arbitrary bytes overwritten (or inserted) at any position:
+// accepted ⇒ the address part (zone removed) is an IPv6 address for
+// net/netip.ParseAddr (the standard library's code, interpreted), and every
+// zone-less IPv6 address netip accepts is accepted.
+func vhC31IPv6Literal() {
+	t := []byte(c31V6Templates[vChoose("template", len(c31V6Templates))])
+	w := vParam("window", 2)
+	pos := vLen("pos", 0, len(t))
+	hole := vBytes("hole", w)
+	for _, c := range hole {
+		vAssume(c != ']' && c != '[') // stay inside the brackets
+	}
+	var addr []byte
+	if vBool("insert") || pos+w > len(t) {
+		addr = append(append(append([]byte(nil), t[:pos]...), hole...), t[pos:]...)
+	} else {
+		addr = append([]byte(nil), t...)
+		copy(addr[pos:], hole)
+	}
+	host := append(append([]byte("["), addr...), ']')
+	accepted := validateIPv6Literal(host) == nil
+	// the address part without a zone
+	part := addr
+	hasZone := false
+	for i, c := range addr {
+		if c == '%' {
+			part, hasZone = addr[:i], true
+			break
+		}
+	}
+	a, err := netip.ParseAddr(string(part))
+	is6 := err == nil && a.Is6() && a.Zone() == ""
+	vNote(string(host))
+	if accepted {
+		vAssert("accepted-literal-is-an-ipv6-address-for-netip", is6)
+	}
+	if is6 && !hasZone {
+		vAssert("every-zoneless-ipv6-address-is-accepted", accepted)
+	}
 }
